@@ -4,7 +4,7 @@ import world
 
 
 def slices(ctx):
-    sl = {k: world.SLICES[k] for k in ("model", "range", "pre", "alias")}
+    sl = {k: world.SLICES[k] for k in ("model", "range", "pre", "alias", "bounds")}
     pairs = world.pair_slices()
     names = sorted(pairs)
     if ctx.tier == "quick":
